@@ -198,6 +198,12 @@ class Gen:
             self.dropped.append(rsx.norm_ws(text[s:j])[:160])
             text = text[:s] + '()' + text[j:]
             self.bump('R4.drop_output_stmt')
+        # R4: flushing stdout
+        n_before = text.count('stdout().flush().unwrap()')
+        if n_before:
+            text = text.replace('stdout().flush().unwrap()', '()')
+            self.bump('R4.drop_stdout_flush', n_before)
+            self.dropped.append('stdout().flush().unwrap() x%d' % n_before)
         # closure wildcard params  |_|  ->  |_x|   (R14)
         mask = rsx.code_mask(text)
         out = []
@@ -316,6 +322,7 @@ class Gen:
         subs = []
         exits = []
         dispatch = None
+        fn_attrs = []
         i = 0
         while i < len(block):
             ln = block[i]
@@ -341,6 +348,8 @@ class Gen:
                 exits.append((p[0], p[1]))
             elif s.startswith('//@dispatch'):
                 dispatch = s[len('//@dispatch'):].strip()
+            elif s.startswith('//@attr'):
+                fn_attrs.append(s[len('//@attr'):].strip())
             elif s.startswith('//@'):
                 raise ExtractError('unknown directive inside //@fn: %s' % s)
             else:
@@ -409,6 +418,8 @@ class Gen:
         if 'ext' in kv:
             head = '    #[verifier::external_body]\n'
             self.bump('R8.external_body')
+        for a in fn_attrs:
+            head += '    ' + a + '\n'
         gen_start = len(self.out_lines) + 1
         indent = re.match(r'[ \t]*', text[text.rfind('\n', 0, it.hstart) + 1:it.hstart]).group(0)
         piece = (docs + '\n' if docs.strip() else '') + head + indent + sig2.rstrip() + '\n' + \
